@@ -32,13 +32,17 @@ def _mods():
     return DiffXReader, DiffXWriter
 
 
-def _write_read(ctx, script, wit):
+def _write_read(ctx, script, wit, meta_only=False):
     """run the writer script, read the bytes back; returns (records, data) or an outcome dict"""
     DiffXReader, DiffXWriter = _mods()
     st = SymStream()
     try:
         script.run(DiffXWriter, st)
     except UnicodeEncodeError:
+        if meta_only:
+            # JSON metadata is ASCII-only text (escapes): every supported codec can encode it, so the writer has
+            # no reason to reject a JSON object
+            return viol('writer-rejects-metadata', dict(wit(ctx.model()))), None
         return skip('text not encodable in the effective codec (writer rejects; C09)'), None
     data = st.value()
     try:
@@ -162,7 +166,7 @@ def ob_meta(ctx, encs):
     if sid != '...meta':
         suffix_for(sid, script)
     wit = lambda m: {'kind': 'meta', 'sid': sid, 'main_encoding': inherited, 'meta': md, 'kw': kw}
-    recs, data = _write_read(ctx, script, wit)
+    recs, data = _write_read(ctx, script, wit, meta_only=True)
     if data is None:
         return recs
     props = _structure_props(script, recs)
@@ -170,6 +174,37 @@ def ob_meta(ctx, encs):
         return viol('record-sequence', dict(wit(ctx.model()), got=[r['section'] for r in recs]))
     rec = [r for r in recs if r['section'] == sid][0]
     props.append(('metadata', json.loads(json.dumps(rec.get('metadata'))) == json.loads(json.dumps(md))))
+    got = dict(rec['options'].items())
+    got.pop('length', None)
+    want = {'format': 'json'}
+    if own is not None:
+        want['encoding'] = own
+    props.append(('options', got == want))
+    return verdict(ctx, props, witness=wit, sample=lambda m: wit(m))
+
+
+def ob_meta_sym(ctx, encs, N):
+    """metadata with a symbolic string and a symbolic integer: written by the real writer (real json.dumps call site,
+    JSON text produced by CPython's pure-Python encoder under instrumentation), encoded, framed, read back and parsed"""
+    from harness.rw import sym_meta, json_normal_form
+    from sx.core import concretize_value
+    sid = ctx.pick('sid', ['.meta', '..meta', '...meta'])
+    own, inherited = ctx.pick('enc', encs)
+    md = sym_meta(ctx, N)
+    script = prefix_for(sid, Script(inherited))
+    kw = {} if own is None else {'encoding': own}
+    script.add(sid, 'write_meta', md, **kw)
+    if sid != '...meta':
+        suffix_for(sid, script)
+    wit = lambda m: {'kind': 'meta', 'sid': sid, 'main_encoding': inherited, 'meta': concretize_value(m, md), 'kw': kw}
+    recs, data = _write_read(ctx, script, wit, meta_only=True)
+    if data is None:
+        return recs
+    props = _structure_props(script, recs)
+    if props is None:
+        return viol('record-sequence', dict(wit(ctx.model()), got=[r['section'] for r in recs]))
+    rec = [r for r in recs if r['section'] == sid][0]
+    props.append(('metadata', value_eq(rec.get('metadata'), json_normal_form(md))))
     got = dict(rec['options'].items())
     got.pop('length', None)
     want = {'format': 'json'}
@@ -259,6 +294,15 @@ def obligations(tier):
     obs.append(Ob('meta', ob_meta, dict(encs=_enc_configs(cat)), must_reach=['DiffXWriter.write_meta'],
                   desc='metadata catalogue x own/inherited encodings x 3 levels (concrete JSON)',
                   bounds={'catalogue': len(METAS)}))
+    NM = 1 if quick else 2
+    menc = [(None, 'utf-8'), ('utf-16', 'utf-8'), (None, 'utf-32-be'), ('latin-1', 'utf-16'), (None, 'ascii')]
+    if not quick:
+        menc = _enc_configs(cat)
+    obs.append(Ob('meta[symbolic]', ob_meta_sym, dict(encs=menc, N=NM), must_reach=['DiffXWriter.write_meta'],
+                  path_timeout=30,
+                  desc='metadata object with a symbolic string of 1..%d arbitrary code points and a symbolic integer, '
+                       'every own/inherited encoding, three levels: read back equal as a JSON value' % NM,
+                  bounds={'string_len': [1, NM], 'int': [-1, 1], 'encodings': len(menc)}))
     K = 4 if quick else 6
     obs.append(Ob('history[K<=%d]' % K, ob_history, dict(K=K, encs=['utf-16', 'latin-1'] if quick else
                                                         ['utf-8', 'utf-16', 'latin-1', 'utf-32-be'], N=1 if quick else 2),
@@ -335,7 +379,9 @@ def replay(ob, label, w):
             for fn, a, k in w['calls']:
                 script.add(sids[fn], fn, *a, **k)
         script.run(DiffXWriter, st)
-    except UnicodeEncodeError:
+    except UnicodeEncodeError as e:
+        if kind == 'meta':
+            return {'violated': True, 'signature': 'roundtrip:writer-rejects-metadata', 'detail': '%s for %r' % (e, w['meta'])}
         return {'violated': False, 'error': 'writer rejects (unencodable)'}
     data = st.getvalue()
     try:
@@ -372,7 +418,8 @@ def replay(ob, label, w):
             if dict(r['options']) != want:
                 bad.append('options %r != %r' % (dict(r['options']), want))
         elif fn == 'write_meta':
-            if r.get('metadata') != a[0]:
+            import json
+            if r.get('metadata') != json.loads(json.dumps(a[0])):
                 bad.append('metadata %r != %r' % (r.get('metadata'), a[0]))
         else:
             want = {kk: vv for kk, vv in k.items() if vv is not None}
